@@ -325,7 +325,8 @@ func vfRunJBIcpt(t *testing.T, sc *vfJBScript, out *vfWriter) {
 				}
 			}
 		case "unbind":
-			ic.UnbindRemoteStream(info)
+			unb := *info // an equal description at another address
+			ic.UnbindRemoteStream(&unb)
 		default:
 			t.Fatalf("VERIF-INFRA unknown icpt action %q", st.A)
 		}
